@@ -518,6 +518,72 @@ mut("C13", "settings-enable-push-2-accepted", "pkg/http2/http2.go",
 mut("C13", "ping-ack-answered", "pkg/http2/server.go",
     "	if f.IsAck() {\n		if sc.pingSent && sc.sentPingData == f.Data {", "	if false {\n		if sc.pingSent && sc.sentPingData == f.Data {")
 
+# ---- C16
+PS = "pkg/proxyserver/proxyserver.go"
+mut("C16", "capture-failure-path-without-inc", PS,
+    "		server.logf(\"could not read client hello (%s): %s\", conn.RemoteAddr(), err)\n		server.metricsRequestsTotalInc(\"0\", \"\")\n		return\n",
+    "		server.logf(\"could not read client hello (%s): %s\", conn.RemoteAddr(), err)\n		return\n")
+mut("C16", "capture-failure-labelled-ok", PS,
+    "		server.logf(\"could not read client hello (%s): %s\", conn.RemoteAddr(), err)\n		server.metricsRequestsTotalInc(\"0\", \"\")\n",
+    "		server.logf(\"could not read client hello (%s): %s\", conn.RemoteAddr(), err)\n		server.metricsRequestsTotalInc(\"1\", \"\")\n")
+mut("C16", "handshake-failure-counted-then-falls-through", PS,
+    "		server.metricsRequestsTotalInc(\"0\", \"\")\n		return\n	}\n\n	// client hello stored",
+    "		server.metricsRequestsTotalInc(\"0\", \"\")\n	}\n\n	// client hello stored")
+mut("C16", "client-errors-labelled-ok", PS,
+    "		server.metricsRequestsTotalInc(\"0\", \"\")\n		return\n	}\n\n	// client hello stored",
+    "		if isNetworkOrClientError(err) {\n			server.metricsRequestsTotalInc(\"1\", \"\")\n		} else {\n			server.metricsRequestsTotalInc(\"0\", \"\")\n		}\n		return\n	}\n\n	// client hello stored")
+mut("C16", "handshake-timeout-not-counted", PS,
+    "		server.metricsRequestsTotalInc(\"0\", \"\")\n		return\n	}\n\n	// client hello stored",
+    "		if errors.Is(err, context.DeadlineExceeded) {\n			return\n		}\n		server.metricsRequestsTotalInc(\"0\", \"\")\n		return\n	}\n\n	// client hello stored")
+mut("C16", "plain-http-answered-but-not-counted", PS,
+    "			io.WriteString(re.Conn, \"HTTP/1.0 400 Bad Request\\r\\n\\r\\nClient sent an HTTP request to an HTTPS server.\\n\")\n",
+    "			io.WriteString(re.Conn, \"HTTP/1.0 400 Bad Request\\r\\n\\r\\nClient sent an HTTP request to an HTTPS server.\\n\")\n			return\n")
+mut("C16", "counted-after-handshake-not-at-end", PS,
+    "	cs := tlsConn.ConnectionState()\n",
+    "	cs := tlsConn.ConnectionState()\n	server.metricsRequestsTotalInc(\"1\", cs.NegotiatedProtocol)\n")
+mut("C16", "counted-after-handshake-not-at-end", PS,
+    "		<-ctx.Done()\n	}\n\n	server.metricsRequestsTotalInc(\"1\", cs.NegotiatedProtocol)\n}",
+    "		<-ctx.Done()\n	}\n}")
+mut("C16", "h1-counted-at-handoff", PS,
+    "		// wait for the connection to be served by HTTP/1.1 server\n		<-ctx.Done()\n	}\n",
+    "		server.metricsRequestsTotalInc(\"1\", cs.NegotiatedProtocol)\n		// wait for the connection to be served by HTTP/1.1 server\n		<-ctx.Done()\n		return\n	}\n")
+mut("C16", "protocol-label-from-package-variable", PS,
+    "	cs := tlsConn.ConnectionState()\n",
+    "	cs := tlsConn.ConnectionState()\n	lastNegotiated.Store(cs.NegotiatedProtocol)\n")
+mut("C16", "protocol-label-from-package-variable", PS,
+    "	server.metricsRequestsTotalInc(\"1\", cs.NegotiatedProtocol)\n}",
+    "	server.metricsRequestsTotalInc(\"1\", lastNegotiated.Load().(string))\n}")
+mut("C16", "protocol-label-from-package-variable", PS,
+    "const defaultMetricsPrefix = \"fingerproxy\"\n",
+    "const defaultMetricsPrefix = \"fingerproxy\"\n\nvar lastNegotiated atomic.Value\n")
+mut("C16", "protocol-label-from-server-field", PS,
+    "	cs := tlsConn.ConnectionState()\n",
+    "	cs := tlsConn.ConnectionState()\n	server.lastNegotiated.Store(cs.NegotiatedProtocol)\n")
+mut("C16", "protocol-label-from-server-field", PS,
+    "	server.metricsRequestsTotalInc(\"1\", cs.NegotiatedProtocol)\n}",
+    "	server.metricsRequestsTotalInc(\"1\", server.lastNegotiated.Load().(string))\n}")
+mut("C16", "protocol-label-from-server-field", PS,
+    "	// required, mutex for initiating the server\n	mu sync.Mutex\n",
+    "	// required, mutex for initiating the server\n	mu sync.Mutex\n\n	lastNegotiated atomic.Value\n")
+mut("C16", "no-alpn-labelled-http11", PS,
+    "	server.metricsRequestsTotalInc(\"1\", cs.NegotiatedProtocol)\n}",
+    "	if cs.NegotiatedProtocol == \"\" {\n		cs.NegotiatedProtocol = \"http/1.1\"\n	}\n	server.metricsRequestsTotalInc(\"1\", cs.NegotiatedProtocol)\n}")
+mut("C16", "inc-on-unregistered-copy", PS,
+    "	}, []string{\"ok\", \"negotiated_protocol\"})\n",
+    "	}, []string{\"ok\", \"negotiated_protocol\"})\n	server.metricRequestsTotal = prometheus.NewCounterVec(prometheus.CounterOpts{\n		Namespace: prefix,\n		Name:      \"requests_total\",\n		Help:      \"The total number of requests processed by fingerproxy\",\n	}, []string{\"ok\", \"negotiated_protocol\"})\n")
+mut("C16", "inc-skipped-under-contention", PS,
+    "	if server.metricsRegistered() {\n		server.metricRequestsTotal.WithLabelValues(ok, negotiatedProtocol).Inc()\n	}",
+    "	if server.metricsRegistered() {\n		if !server.mu.TryLock() {\n			return\n		}\n		defer server.mu.Unlock()\n		server.metricRequestsTotal.WithLabelValues(ok, negotiatedProtocol).Inc()\n		server.vlogf(\"requests_total{%s,%s} incremented for %p\", ok, negotiatedProtocol, server)\n	}")
+mut("C16", "ok-label-true-false", PS,
+    "	server.metricsRequestsTotalInc(\"1\", cs.NegotiatedProtocol)\n}",
+    "	server.metricsRequestsTotalInc(\"true\", cs.NegotiatedProtocol)\n}")
+mut("C16", "deferred-failure-count-also-runs-on-h1-success", PS,
+    "	// attempt to handshake\n",
+    "	counted := false\n	defer func() {\n		if !counted && tlsConn.ConnectionState().NegotiatedProtocol != \"h2\" {\n			server.metricsRequestsTotalInc(\"0\", \"\")\n		}\n	}()\n	// attempt to handshake\n")
+mut("C16", "deferred-failure-count-also-runs-on-h1-success", PS,
+    "		server.metricsRequestsTotalInc(\"0\", \"\")\n		return\n	}\n\n	// client hello stored",
+    "		counted = false\n		return\n	}\n\n	// client hello stored")
+
 def run(argv):
     props = [a for a in argv if a.startswith("C")]
     sub = None
